@@ -256,8 +256,19 @@ def model(wl, pair_status):
     return {'status': status, 'sections': sorted(sections), 'removed': sorted(removed), 'added': sorted(added), 'errors': sorted(errors)}
 
 
+def norm_report(out, indent=False):
+    """a report with trailing blanks removed from every line (abipkgdiff indents abidiff's report by two blanks, blank lines included or not)"""
+    lines = [l.rstrip() for l in (out or b'').decode('utf-8', 'replace').splitlines()]
+    if indent:
+        lines = [('  ' + l) if l else l for l in lines]
+    while lines and not lines[-1]:
+        lines.pop()
+    return '\n'.join(lines)
+
+
 def parse_report(out):
     text = (out or b'').decode('utf-8', 'replace')
+    bodies = [(m.group(1), norm_report(m.group(2).encode())) for m in re.finditer(r"^=+ changes of '([^']*)'=+\n(.*?)^=+ end of changes of '\1'=+$", text, re.M | re.S)]
     sections = sorted(re.findall(r"^=+ changes of '([^']*)'=+$", text, re.M))
     ends = sorted(re.findall(r"^=+ end of changes of '([^']*)'=+$", text, re.M))
     removed, added = [], []
@@ -273,7 +284,7 @@ def parse_report(out):
                 mode.append(m.group(1).lstrip('/'))   # the tool prints the path relative to the package root, with or without a leading '/'
         elif not line.startswith('  '):
             mode = None if not line.startswith(('Removed', 'Added')) else mode
-    return {'sections': sections, 'section_ends': ends, 'removed': sorted(removed), 'added': sorted(added)}
+    return {'sections': sections, 'section_ends': ends, 'removed': sorted(removed), 'added': sorted(added), 'bodies': bodies}
 
 
 def tsan_race_key(err):
